@@ -54,9 +54,16 @@ Fixpoint cut_colon (s : bytes) : option (bytes * bytes) :=
 
 Definition key_char (b : N) : bool := (33 <=? b)%N && (b <=? 126)%N && negb (N.eqb b 58).
 
-(* fields in order; a line starting with SP/TAB continues the previous field: its trimmed text is
-   appended after one blank (readContinuedLineSlice) *)
-Fixpoint fields_of_lines (ls : list bytes) (acc : list (bytes * bytes)) : option (list (bytes * bytes)) :=
+Fixpoint sequence_o {A : Type} (l : list (option A)) : option (list A) :=
+  match l with
+  | [] => Some []
+  | Some x :: r => match sequence_o r with Some xs => Some (x :: xs) | None => None end
+  | None :: _ => None
+  end.
+
+(* readContinuedLineSlice: a line starting with SP/TAB continues the previous one; the logical line
+   is the trimmed first line followed, for every continuation, by one blank and the trimmed text *)
+Fixpoint logical_lines (ls : list bytes) (acc : list bytes) : option (list bytes) :=
   match ls with
   | [] => Some (rev acc)
   | l :: rest =>
@@ -65,23 +72,30 @@ Fixpoint fields_of_lines (ls : list bytes) (acc : list (bytes * bytes)) : option
       | b :: _ =>
           if is_sptab b then
             match acc with
-            | (k, v) :: acc' => fields_of_lines rest ((k, v ++ 32%N :: trim l) :: acc')
+            | cur :: acc' => logical_lines rest ((cur ++ 32%N :: trim l) :: acc')
             | [] => None
             end
-          else
-            match cut_colon l with
-            | Some (k, v) =>
-                if forallb key_char k && negb (is_empty k)
-                then fields_of_lines rest ((canon k, trim v) :: acc)
-                else None
-            | None => None
-            end
+          else logical_lines rest (trim l :: acc)
       end
+  end.
+
+(* key ":" value; the key is canonicalised, the value loses its leading blanks *)
+Definition field_of_line (l : bytes) : option (bytes * bytes) :=
+  match cut_colon l with
+  | Some (k, v) =>
+      if forallb key_char k && negb (is_empty k) then Some (canon k, trim_left v) else None
+  | None => None
+  end.
+
+Definition fields_of_lines (ls : list bytes) : option (list (bytes * bytes)) :=
+  match logical_lines ls [] with
+  | Some lls => sequence_o (map field_of_line lls)
+  | None => None
   end.
 
 Definition fields_of_block (h : bytes) : option hdr :=
   match block_lines [] h with
-  | Some ls => fields_of_lines ls []
+  | Some ls => fields_of_lines ls
   | None => None
   end.
 
@@ -187,13 +201,6 @@ Definition bits_of_body (body : bytes) : bits :=
 Inductive fnode :=
 | FLeaf (h : hdr) (body : bytes)
 | FMulti (h : hdr) (kids : list fnode).
-
-Fixpoint sequence_o {A : Type} (l : list (option A)) : option (list A) :=
-  match l with
-  | [] => Some []
-  | Some x :: r => match sequence_o r with Some xs => Some (x :: xs) | None => None end
-  | None :: _ => None
-  end.
 
 Fixpoint fnode_of_node (t : node) : option fnode :=
   match t with
